@@ -338,7 +338,11 @@ def gen_key_history(g, nfmt=4, length=None, with_maps=True, mseq=None):
                 pending.append(dict(g.pick(eff)))
         elif ev < 4:
             used = [k for s_ in a["segs"] for k in s_["keys_before"] if k is not None] + [k for k in pending if k is not None]
-            if used and g.chance(0.35):
+            if used and g.chance(0.2):
+                k2 = dict(g.pick(used))                     # an earlier key again, only its IV attribute differs
+                k2["iv"] = None if (k2["iv"] is not None and g.chance(0.6)) else g.iv()
+                pending.append(k2)
+            elif used and g.chance(0.35):
                 pending.append(dict(g.pick(used)))          # an earlier key again, byte for byte (it may have been replaced meanwhile)
             else:
                 pending.append(gen.gen_key(g, fmts))
@@ -542,6 +546,18 @@ class C06(Prop):
         for k in range(count_tier(tier, 1500, 40000)):
             a = gen_key_history(g, length=g.r.randint(2, 60))
             out.append(mk("h", k, "media", hx(gen.render_media(a, None)), exp=expected_key_views(a), stream="random"))
+        # sizes: N key formats in effect at once (keys accumulate without limit), a map and a segment behind them, one of them
+        # replaced, then METHOD=NONE
+        def seg(keys, mp=None, j=0):
+            return {"keys_before": keys, "map": mp, "uri": "s%d.ts" % j, "dur": "9.5", "title": None, "disc": False, "pdt": None, "range": None, "daterange": None}
+        for N in list(range(1, 41)) + [63, 64, 65, 100, 128, 129, 200]:
+            keys = [{"method": "SAMPLE-AES", "uri": "k%d" % j, "iv": None, "format": "com.example.f%d" % j, "versions": None} for j in range(N)]
+            a = {"target": 10, "mseq": None, "dseq": None, "ptype": None, "iframes": False, "indep": False, "start": None, "endlist": True,
+                 "version_tag": None, "unknown": [], "d17": False,
+                 "segs": [seg(keys, {"uri": "init.mp4", "range": None, "pos": N}, 0),
+                          seg([dict(keys[N // 2], uri="replaced")], None, 1), seg([None], None, 2), seg([dict(keys[0])], None, 3)]}
+            out.append(mk("z", n, "media", hx(gen.render_media(a, None)), exp=expected_key_views(a), stream="sizes"))
+            n += 1
         return out
 
     def judge(self, run, c, m, i):
@@ -630,9 +646,17 @@ class C07(Prop):
             "InitializationVector" not in text
         explicit_in_dump = len(set(re.findall(r"\(iv \(aes \d+\)\)", " ".join(unparse(field(s, "keys")) for s in segs))))
         ok_text = ok_text and (text.count(",IV=") >= (1 if explicit_in_dump else 0))
-        ok = ok_nums and ok_iv and ok_text
+        # the written text stays valid: read again it gives the same numbers and effective IVs
+        re_ = field(node, "re")
+        ok_re = True
+        if re_ is not None and len(re_) > 2 and re_[1] == "ok":
+            rsegs = media_segs(re_[2])
+            # (segment keys as a set: the ORDER of a key list and the keys of a map behind a key tag are the known findings D20 / D9-K1 of C03)
+            kset = lambda s_: sorted(unparse(k_) for k_ in field(s_, "keys")[1:])
+            ok_re = [int(field(s_, "num")[1]) for s_ in rsegs] == nums and [kset(s_) for s_ in rsegs] == [kset(s_) for s_ in segs]
+        ok = ok_nums and ok_iv and ok_text and ok_re
         return {"agree": agree, "ok": ok, "nontrivial": len(segs) > 1,
-                "detail": "" if ok else "numbers ok=%s ivs ok=%s text ok=%s" % (ok_nums, ok_iv, ok_text),
+                "detail": "" if ok else "numbers ok=%s ivs ok=%s text ok=%s re-parse keeps numbers and IVs=%s" % (ok_nums, ok_iv, ok_text, ok_re),
                 "stats": {"explicit_iv_cases": 1 if c["meta"]["nexplicit"] else 0}}
 
 
@@ -688,7 +712,7 @@ class C08(Prop):
         g = gen.G(seed * 1000003 + 8)
         out = []
         n = 0
-        uris = ["a.ts", "b.ts"]
+        uris = ["a.ts", "a.ts?x=2"]        # (two different resources that differ only behind a `?`)
         opts = [None, (10, 5), (7, None), (0, None), (3, 0)]
         for L in range(1, count_tier(tier, 3, 5) + 1):
             for combo in itertools.product(itertools.product(uris, opts), repeat=L):
@@ -698,7 +722,7 @@ class C08(Prop):
         for k in range(count_tier(tier, 1500, 40000)):
             chain = []
             for _ in range(g.r.randint(1, 12)):
-                uri = g.pick(["a.ts", "b.ts", "c d.ts"])
+                uri = g.pick(["a.ts", "b.ts", "c d.ts", "a.ts?x=1", "a.ts?x=2", "a.ts#a", "a.ts#b", "A.ts"])
                 kind = g.r.randrange(4)
                 if kind == 0:
                     r = None
@@ -725,7 +749,8 @@ class C08(Prop):
             chain, maps = [], {}
             prev = None
             for j in range(g.r.randint(2, 8)):
-                uri = prev[0] if (prev is not None and g.chance(0.7)) else g.pick(["a.ts", "b.ts", "main.mp4"])
+                # (different strings are different resources, however similar: query, fragment, case, trailing characters)
+                uri = prev[0] if (prev is not None and g.chance(0.6)) else g.pick(["a.ts", "b.ts", "main.mp4", "a.ts?x=1", "a.ts?x=2", "a.ts#a", "a.ts#b", "A.ts", "a.ts/", "a.ts ", "./a.ts"])
                 if prev is not None and prev[0] == uri and g.chance(0.6):
                     r = (g.pick([1, 1000, g.small(10 ** 6)]), None)
                     start = prev[1]
@@ -800,6 +825,14 @@ class C09(Prop):
                         ns = x * 10 ** 9 + 5 * 10 ** 8 + delta
                         out.append(self._case(n, t, al, [ns], g)); n += 1
                         out.append(self._bcase(n, t, al, [ns])); n += 1
+        # allowances with a sub-second part: the bound is target + allowance, the segment duration is rounded first
+        for t in (0, 8, 2 ** 24):
+            for al in (500000001, 700000000, 999999999, 1700000000, 499999999):
+                for x in (t, t + 1, t + 2):
+                    for frac in sorted(set([0, 499999999, 500000000, 600000000, al % 10 ** 9 - 1, al % 10 ** 9, al % 10 ** 9 + 1, 999999999])):
+                        ns = x * 10 ** 9 + frac
+                        out.append(self._case(n, t, al, [ns], g)); n += 1
+                        out.append(self._bcase(n, t, al, [ns])); n += 1
         for k in range(count_tier(tier, 600, 20000)):
             t = g.pick(targets + [g.small(100)])
             al = g.pick(allow + [g.small(3 * 10 ** 9)])
@@ -828,6 +861,10 @@ class C09(Prop):
                 g.pick(["%d.499999999" % t, "%d" % t, "%d.000000001" % t, "%d.5" % max(t - 1, 0)])
             out.append(mk("c", n, "media", hx(gen.render_media(a, None)), exp=not over, exact=True, path="text_in_context")); n += 1
             out.append(mk("d", n, "bmedia", hx(builder_script(a, g)), exp=not over, exact=True, path="builder_in_context")); n += 1
+            if k % 3 == 0:
+                # the same text through a builder that carries another target duration: the tag in the text decides, wherever it stands
+                preset = "Tn %d" % (g.pick([0, 1, max(t - 1, 0), t + 5, 4]) * 10 ** 9)
+                out.append(mk("e", n, "media_preset", hx(preset), hx(gen.render_media(a, None)), exp=not over, exact=True, path="text_preset_builder", model=False)); n += 1
         return out
 
     @staticmethod
@@ -914,7 +951,13 @@ class C10(Prop):
         for n in range(count_tier(tier, 1000, 30000)):
             gen.random_style(g)
             if n % 2:
-                a = gen.gen_media(g)
+                a = gen.gen_media(g) if n % 4 != 3 else gen_key_history(g, length=g.r.randint(3, 12), with_maps=g.chance(0.3))
+                if n % 4 == 3 and g.chance(0.5):
+                    for sg in a["segs"]:
+                        for kk in sg["keys_before"]:
+                            if kk is not None:
+                                kk["method"] = "SAMPLE-AES"      # (no derived IV: nothing but an explicit IV asks for version 2)
+                                kk["format"], kk["versions"] = None, None
                 out.append(mk("m", n, "media", hx(gen.render_media(a, g)), kind="media"))
                 if len(a["segs"]) >= 2 and n % 3 == 1:
                     # the same value after segments were removed through the public `segments` field: the text of ANY playlist value
@@ -1054,7 +1097,10 @@ class C12(Prop):
             base = render(a, None)
             out.append(mk("b", n, op, hx(base), role="base", nontrivial=True))
             gen.random_style(g)
-            out.append(mk("s", n, op, hx(render(a, g)), role="styled", partner="b%d" % n, added=0))
+            styled = render(a, g)
+            out.append(mk("s", n, op, hx(styled), role="styled", partner="b%d" % n, added=0))
+            # the two parse results compare equal with the library's own `==` (not only by observable content)
+            out.append(mk("q", n, "eq_" + op, hx(base), hx(styled), role="eq", model=False))
             t = base
             added = 0
             for _ in range(g.r.randint(1, 4)):
@@ -1101,6 +1147,14 @@ class C12(Prop):
         agree = (m == i) if m is not None else None
         if c["meta"]["role"] == "base":
             return {"agree": agree, "ok": None, "nontrivial": False}
+        if c["meta"]["role"] == "eq":
+            if not (i or "").startswith("ok "):
+                return {"agree": None, "ok": None if res_kind(i) == "err" else False, "nontrivial": False, "detail": "eq op: " + res_kind(i)}
+            t = parse_sexp(i)[1]
+            same = unparse(t[2]) == unparse(t[3])
+            ok = t[1] == "1" or not same
+            return {"agree": None, "ok": ok, "nontrivial": True, "stats": {"eq": 1},
+                    "detail": "" if ok else "two presentations of the same playlist parse to values with the same content that do not compare equal (==)"}
         base = run.impl.get(c["meta"]["partner"])
         if c["meta"]["role"] == "foreign":
             if not (base or "").startswith("ok "):
@@ -1368,6 +1422,8 @@ def api_cases(g, strings, idp, n0, tier_count):
         add("byte_range_to", g.small(10 ** 6))
         add("kfv", hx("new:" + "/".join(str(g.pick([0, 0, 1, 2, 255])) for _ in range(g.r.randint(1, 9)))))
         add("kfv", hx("1/2/3#%d+%d" % (g.r.randint(0, 3), g.pick([0, 9]))))
+        add("kfv", hx("new:" + "/".join(str(g.pick([1, 2, 3, 255])) for _ in range(g.r.randint(2, 9))) + "~%d" % g.r.randint(1, 2)))
+        add("kfv", hx("1/2/3/4~%d" % g.r.randint(1, 3)))
         add("iv_aes", g.iv().hex())
         add("iv_number", g.pick([0, 1, 2 ** 64, 2 ** 128 - 1]))
         add("key_iv_number", hx("AES-128"), hx("k"), g.pick([0, 7, 2 ** 64]))
@@ -1380,7 +1436,8 @@ def api_fields(i):
     if not (i or "").startswith("ok "):
         return None
     t = parse_sexp(i)[1]
-    return {"b1": t[1], "b2": t[2], "dx": unparse(t[3]), "do": unparse(t[4]), "tx": unparse(t[5]), "to": unparse(t[6]), "re": t[7]}
+    reeq = t[8][1] if len(t) > 8 and isinstance(t[8], list) and t[8][0] == "reeq" else None
+    return {"b1": t[1], "b2": t[2], "dx": unparse(t[3]), "do": unparse(t[4]), "tx": unparse(t[5]), "to": unparse(t[6]), "re": t[7], "reeq": reeq}
 
 
 # ------------------------------------------------------------------ C17
@@ -1415,7 +1472,7 @@ class C17(Prop):
                 if sg["map"] is not None and gen.keys_in_effect(hist + sg["keys_before"][: sg["map"]["pos"]]) not in ([], ):
                     sg["map"] = None
                 hist = gen.keys_in_effect(hist + sg["keys_before"])
-            out.append(mk("p", len(out), "bown", hx(builder_script(a, g)), model=False, kind="bown"))
+            out.append(mk("p", len(out), "bown", hx(builder_script(a, g, dup_keys=g.chance(0.5))), model=False, kind="bown"))
             cnt = g.r.randint(1, 5)
             use_list = g.chance(0.5)
             m_ = g.r.randint(0, cnt)
@@ -2222,9 +2279,10 @@ class C18(Prop):
             f = api_fields(i)
             if f is None:
                 return {"agree": None, "ok": None if res_kind(i) == "badinput" else False, "nontrivial": False, "detail": "api op: " + res_kind(i), "stats": {"api_" + res_kind(i): 1}}
-            ok = f["re"][1] == "ok" and unparse(f["re"][2]) == f["dx"]
+            ok = f["re"][1] == "ok" and unparse(f["re"][2]) == f["dx"] and f["reeq"] in ("1", None)
             return {"agree": None, "ok": ok, "nontrivial": True, "stats": {c["meta"]["ty"]: 1},
-                    "detail": "" if ok else "value built by the public constructor %s: parsing its own text gives %s, not %s" % (c["meta"]["kind"], unparse(f["re"])[:300], f["dx"][:300])}
+                    "known": "D24" if (not ok and c["meta"]["kind"] == "kfv" and f["dx"] == "(v)") else None,
+                    "detail": "" if ok else "value built by the public constructor %s: parsing its own text gives %s (== original: %s), not %s" % (c["meta"]["kind"], unparse(f["re"])[:300], f["reeq"], f["dx"][:300])}
         acc = c["meta"].get("accept")
         if acc is not None:
             ok = (res_kind(i) == "ok") == acc
@@ -2255,7 +2313,8 @@ LAW_POOLS = {
     "Resolution": ["1x2", "2x1", "1x1", "10x9"],
     "Codecs": ["a", "a,b", "b,a", "a,b,c", ""],
     "ClosedCaptions": ["NONE", '"NONE"', '"a"', '"b"'],
-    "KeyFormat": ['"identity"', "identity", '"com.apple.streamingkeydelivery"', '"x"', '"y"'],
+    "KeyFormat": ['"identity"', "identity", '"com.apple.streamingkeydelivery"', '"x"', '"y"', "other:identity", "other:com.apple.streamingkeydelivery",
+                  "other:x", "other:urn:uuid:edef8ba9-79d6-4ace-a3c8-27dcd51d21ed", "other:com.microsoft.playready", '"com.microsoft.playready"'],
     "InitializationVector": ["0x" + "00" * 16, "0x" + "00" * 15 + "01", "0X" + "FF" * 16, "0x" + "ff" * 16, "num:0", "num:1", "num:255", "missing",
                              "0x" + "00" * 15 + "ff", "num:340282366920938463463374607431768211455"],
     "Value": ['"a"', '"b"', "0x00", "0x0000", "1.5", "0", "-0", '"1.5"'],
@@ -2347,7 +2406,7 @@ class C19(Prop):
 
 
 # ------------------------------------------------------------------ C20
-def builder_script(a, g, explicit="none"):
+def builder_script(a, g, explicit="none", dup_keys=False):
     """a call sequence realising the abstract media playlist `a` (no explicit numbers unless asked)"""
     setters = ["Tn %d" % (a["target"] * 10 ** 9)]
     if a["mseq"] is not None:
@@ -2374,6 +2433,8 @@ def builder_script(a, g, explicit="none"):
         lines = ["seg -" if explicit == "none" else "seg %d" % idx]
         for k in hist:
             lines.append("tag " + gen.key_line(k))
+            if dup_keys and g.chance(0.3):
+                lines.append("tag " + gen.key_line(k))       # the same key pushed twice
         for l in gen.seg_tag_lines(dict(s, keys_before=[], map=None if s["map"] is None else dict(s["map"], pos=0)), None):
             lines.append("tag " + l)
         lines.append("uri " + s["uri"])
@@ -2390,7 +2451,7 @@ def builder_script(a, g, explicit="none"):
     return "\n".join(script)
 
 
-def master_builder_script(a, g, skip_media=False):
+def master_builder_script(a, g, skip_media=False, skip_variants=False):
     """a MasterPlaylistBuilder call sequence for the abstract master playlist `a` (tags handed over in text form)"""
     blocks = []
     b = ["media " + gen.xmedia_line(m, None) for m in a["media"]]
@@ -2401,7 +2462,7 @@ def master_builder_script(a, g, skip_media=False):
     for v in a["variants"]:
         ls = gen.variant_lines(v, None)
         b += ["variant " + ls[0]] if v["kind"] == "iframe" else ["streaminf " + ls[0], "vuri " + ls[1]]
-    blocks.append(b + ["set variants"])
+    blocks.append(b + ([] if (skip_variants and not a["variants"]) else ["set variants"]))
     blocks.append(["sdata " + gen.sdata_line(d, None) for d in a["sdata"]] + ["set sdata"])
     blocks.append(["skey " + gen.key_line(k, None).replace("#EXT-X-KEY:", "#EXT-X-SESSION-KEY:", 1) for k in a["skeys"]] + ["set skeys"])
     blocks.append(["unknown " + u for u in a["unknown"]] + ["set unknown"])
@@ -2433,6 +2494,9 @@ class C20(Prop):
                 if s["map"] is not None and gen.keys_in_effect(hist + s["keys_before"][: s["map"]["pos"]]) not in ([], ):
                     s["map"] = None
                 hist = gen.keys_in_effect(hist + s["keys_before"])
+            if g.chance(0.15):
+                # numbers near the top of the integer range: accepted iff the last number still fits (both paths)
+                a["mseq"] = min(2 ** 64 - 1, 2 ** 64 - len(a["segs"]) - g.pick([0, 0, 1, 2, 3, 7, -1]))
             if g.chance(0.2) and a["segs"]:
                 # an invalid one: a too long segment or a broken range chain
                 if g.chance(0.5):
@@ -2460,9 +2524,13 @@ class C20(Prop):
                     v["sd"]["video"] = "missing-group"
             elif mut == 2 and a["sdata"]:
                 a["sdata"].append(dict(a["sdata"][0]))
+            if mut == 3 and a["sdata"]:
+                a["variants"] = []
+                if g.chance(0.7):
+                    a["sdata"].append(dict(a["sdata"][0]))
             skip = (not a["media"]) and g.chance(0.6)
             out.append(mk("t", n, "master", hx(gen.render_master(a, None)), role="text"))
-            out.append(mk("b", n, "bmaster", hx(master_builder_script(a, g, skip)), role="mbuilder", partner="t%d" % n, ntags=len(a["media"]) + len(a["variants"]), model=False))
+            out.append(mk("b", n, "bmaster", hx(master_builder_script(a, g, skip, g.chance(0.7))), role="mbuilder", partner="t%d" % n, ntags=len(a["media"]) + len(a["variants"]), model=False))
             n += 1
         for k in range(count_tier(tier, 500, 10000)):
             cnt = g.r.randint(1, 6)
